@@ -27,6 +27,17 @@ Fixpoint vdirs (m : nat) (i j : nat) : list bool :=
 Fixpoint halve (m : nat) (x : nat) : nat :=
   match m with O => x | S m' => halve m' (Nat.div2 x) end.
 
+(* nat version of ahtree.inclusionProofLen (see Verify.incl_len_f) *)
+Fixpoint ilen (fuel : nat) (x j : nat) : nat :=
+  match fuel with
+  | O => 0
+  | S f =>
+      if x =? j then
+        if j =? 0 then 0
+        else (if Nat.odd j then 1 else 0) + ilen f (Nat.div2 x) (Nat.div2 j)
+      else 1 + ilen f (Nat.div2 x) (Nat.div2 j)
+  end.
+
 Lemma even_div2 x : Nat.even x = true -> 2 * Nat.div2 x = x.
 Proof.
   intros E. apply Nat.even_spec in E. destruct E as [k ->].
@@ -169,7 +180,47 @@ Proof.
   - cbn [length halve]. rewrite (IH (upT ts) (Nat.div2 x)) by lia. rewrite UL. reflexivity.
 Qed.
 
+(* the honest proof has exactly the prescribed length, for any sufficient fuel of ilen *)
+Lemma hsteps_len fuel : forall ts x fuel2,
+  length ts <= fuel -> x < length ts -> length ts - 1 < 2 ^ fuel2 ->
+  length (hsteps fuel ts x) = ilen fuel2 x (length ts - 1).
+Proof.
+  induction fuel as [|f IH]; intros ts x fuel2 Hf Hx H2; [lia|].
+  cbn [hsteps]. destruct (Nat.eqb_spec (length ts - 1) 0) as [E0|N0].
+  - assert (x = 0) by lia. subst x. rewrite E0.
+    destruct fuel2; reflexivity.
+  - assert (Hlen2 : 2 <= length ts) by lia.
+    pose proof (upT_length_lt ts Hlen2) as Hlt.
+    set (j := length ts - 1) in *. assert (Lj : length ts = S j) by lia.
+    pose proof (upT_last ts j Lj) as UL.
+    assert (Hx2 : Nat.div2 x < length (upT ts)) by (pose proof (div2_le x j); pose proof (upT_nonempty ts); lia).
+    destruct fuel2 as [|f2]; [simpl in H2; lia|].
+    assert (Hj2 : Nat.div2 j < 2 ^ f2).
+    { rewrite Nat.div2_div. cbn [Nat.pow] in H2. apply Nat.div_lt_upper_bound; lia. }
+    cbn [ilen].
+    destruct (Nat.eqb_spec x j) as [->|NE].
+    + destruct (Nat.eqb_spec j 0); [lia|]. cbn [andb].
+      destruct (Nat.even j) eqn:Ee.
+      * rewrite <- Nat.negb_even, Ee. cbn [negb Nat.add].
+        rewrite (IH (upT ts) (Nat.div2 j) f2) by (rewrite ?UL; lia). rewrite UL. reflexivity.
+      * rewrite <- Nat.negb_even, Ee. cbn [negb length].
+        rewrite (IH (upT ts) (Nat.div2 j) f2) by (rewrite ?UL; lia). rewrite UL. reflexivity.
+    + cbn [andb length].
+      rewrite (IH (upT ts) (Nat.div2 x) f2) by (rewrite ?UL; lia). rewrite UL. reflexivity.
+Qed.
+
 End Honest.
+
+(* a proof of the prescribed length brings the claimed position onto the right-most path *)
+Lemma ilen_halve fuel : forall x j, x <= j -> j < 2 ^ fuel ->
+  halve (ilen fuel x j) x = halve (ilen fuel x j) j.
+Proof.
+  induction fuel as [|f IH]; intros x j Hx Hj; cbn [ilen].
+  - simpl in Hj. assert (j = 0) by lia. assert (x = 0) by lia. subst. reflexivity.
+  - destruct (Nat.eqb_spec x j) as [->|NE]; [reflexivity|].
+    cbn [Nat.add halve]. apply IH; [apply div2_le; exact Hx|].
+    rewrite Nat.div2_div. cbn [Nat.pow] in Hj. apply Nat.div_lt_upper_bound; lia.
+Qed.
 
 (* E3: given the tree size, the number of terms and that the position reaches the right-most path,
    the verifier's directions determine the position *)
